@@ -168,7 +168,7 @@ class World:
                 elif k == "lit":
                     node = plan.lit(specs_const(nd["v"]))
                 elif k == "src":
-                    store = LogicalStore(self, i, self.normalising)
+                    store = self.new_store(i)
                     self.stores[i] = store
                     node = self.registry.source(plan, store)
                 elif k == "unpack":
@@ -187,7 +187,7 @@ class World:
             for r in nd.get("deps", []):
                 plan.add_dependency(self.node_of(r), node)
             if nd.get("stored") and self.registry is not None and k in ("call", "lit"):
-                store = LogicalStore(self, i, self.normalising)
+                store = self.new_store(i)
                 self.stores[i] = store
                 self.registry.add(node, store)
         for fr, to in spec.get("back", []):
@@ -199,6 +199,9 @@ class World:
                     self.index_of.setdefault(x, (i, j))
             else:
                 self.index_of.setdefault(n, i)
+
+    def new_store(self, i):
+        return LogicalStore(self, i, self.normalising)
 
     def node_of(self, ref):
         if "n" in ref:
@@ -399,6 +402,9 @@ class World:
 
     def delete(self, i):
         s = self.stores[i]
+        if hasattr(s, "harness_delete"):
+            s.harness_delete()
+            return
         s.value = Missing
         s.time = None
 
